@@ -22,6 +22,7 @@ PROPS = {
     'C19': ({'N', 'T', 'F', 'A', 'Q'}, (1900, 2000)),
     # the reference interpretation is the engine model: these properties own no oracle clause of their own
     # (C06 shares 202, the second revival of a task by a catch) and are decided by trace equality on their line kinds
+    'C11': ({'RT', 'RP', 'N', 'A'}, (1100, 1200)),
     'C04': ({'N', 'T', 'A', 'Q'}, (400, 500)),
     'C06': ({'N', 'T', 'M', 'P', 'A'}, (202, 203)),
     'C07': ({'N', 'M', 'P', 'D', 'A'}, (700, 800)),
@@ -52,6 +53,8 @@ CLAUSE_TEXT = {
 
 
 def strip_site(l):
+    if l.startswith(('RT ', 'RP ')):
+        return ' '.join(l.split(' ')[:4])          # point, task, field
     return re.sub(r' @\d+$', '', l)
 
 
@@ -233,6 +236,17 @@ def run(prop, tier, seed):
             cls = classify(cases[cid], clause, tid, m.get(cid, []))
             violations.append({'class': cls, 'detail': f"case {cid}: {CLAUSE_TEXT.get(clause, clause)} (task #{tid}) [{cls}]",
                                'case': {'kind': 'engine', 'case': cases[cid], 'clause': clause, 'task': tid}})
+    if prop == 'C11':
+        # every live-vs-row difference the implementation reports at a quiescent point is a violation
+        for cid, ls in i.items():
+            for l in ls:
+                if l.startswith(('RT ', 'RP ')):
+                    p = l.split(' ')
+                    field = p[3] if p[0] == 'RT' else 'process-' + p[2]
+                    violations.append({'class': f"11:{field}", 'detail': f"case {cid}: at quiescent point {p[1]} the store row differs from the live {'task #' + p[2] if p[0] == 'RT' else 'process'}: {l}",
+                                       'case': {'kind': 'engine', 'case': cases[cid], 'clause': 1101, 'task': 0}})
+                    break
+        nontrivial = len([cid for cid in cases if sum(1 for l in i.get(cid, []) if l.startswith('T ')) > 8])
     broken = []
     if res['harness_errors']:
         broken.append(('harness', "; ".join(res['harness_errors'])[:500]))
@@ -273,3 +287,71 @@ def replay(prop, case, workdir):
     hit = [x for x in v if lo <= x[0] < hi]
     print("REPRODUCED" if hit or a != b else "NOT-REPRODUCED")
     return 1 if hit or a != b else 0
+
+
+def run_c12(tier, seed):
+    """run A (never interrupted) against run B (process dropped from the cache and reloaded before every
+    operation, memory store) and run C (engine stopped and restarted on the SQLite store before every operation)"""
+    res = engine.build(tier, seed)
+    a = engine.split_cases(res['impl'])
+    cases = {}
+    for l in open(res['cases']):
+        if l.strip():
+            c = json.loads(l)
+            cases[c['id']] = c
+    kinds = {'N', 'T', 'M', 'P', 'A', 'D'}
+    f = lambda l: re.sub(r' \d{4,}$', '', l) if l[0] in 'NT' else l
+    violations, broken = [], []
+    stats = {}
+    for name, flags in (('evict', ('extra', 'evict')), ('sqlite-restart', ('extra', 'sqlite', 'restart'))):
+        out, errs = engine.variant(res, name, flags)
+        if errs:
+            broken.append(('harness', f"{name}: " + "; ".join(errs)[:400]))
+        b = engine.split_cases(out)
+        same = 0
+        for cid, c in cases.items():
+            x = [f(l) for l in a.get(cid, []) if l.split(' ')[0] in kinds]
+            y = [f(l) for l in b.get(cid, []) if l.split(' ')[0] in kinds]
+            if x == y:
+                same += 1
+                continue
+            k = 0
+            while k < min(len(x), len(y)) and x[k] == y[k]:
+                k += 1
+            ex = x[k] if k < len(x) else 'END'
+            ob = y[k] if k < len(y) else 'END'
+            if ex.startswith('N ') and ex.split(' ')[2] == 'dyn':
+                cls = '12:generated_node_not_created'
+            else:
+                cls = f"12:{ex.split(' ')[0]}/{ob.split(' ')[0]}"
+            violations.append({'class': cls, 'detail': f"case {cid} ({name}): the uninterrupted run continues with `{ex}`, the reloaded run with `{ob}` (line {k})",
+                               'case': {'kind': 'engine-variant', 'case': c, 'variant': name, 'flags': list(flags), 'at': k, 'expected': ex, 'observed': ob}})
+        stats[name] = {'same': same, 'of': len(cases)}
+    nontrivial = len([cid for cid in cases if sum(1 for l in a.get(cid, []) if l.startswith('A ')) >= 2])
+    cov = {'evaluations': 2 * len(cases), 'distinct_nontrivial': nontrivial,
+           'rule': "every case of the engine corpus (generated workflows with model-driven client histories) is run three times on the real engine: uninterrupted; with the process dropped from the cache and reloaded from the memory store before every operation; with the engine closed and a new engine started on the same SQLite database before every operation. N/T/M/P/A/D lines (task creations, state writes, messages, process events, action results, final task data) are compared without ids and times; non-trivial = at least two operations, i.e. at least two reload points",
+           'traces_validated_against_impl': min(v['same'] for v in stats.values()), 'variants': stats, 'input_distribution': res['distribution'], 'corpus_cases': res['ncorpus'],
+           'samples': [json.loads(open(res['cases']).readline())]}
+    return {'cov': cov, 'violations': violations, 'broken': broken,
+            'assumptions': ["reload points are operation boundaries (quiescent points); a stop in the middle of an operation is not explored",
+                            "ids and timestamps are not compared",
+                            "the deterministic tier: current_thread runtime, virtual clock"]}
+
+
+def replay_variant(case, workdir):
+    c = case['case']
+    os.makedirs(workdir, exist_ok=True)
+    cp = os.path.join(workdir, 'one.jsonl')
+    open(cp, 'w').write(json.dumps(c) + "\n")
+    outs = []
+    for name, flags in (('plain', ('extra',)), (case['variant'], tuple(case['flags']))):
+        op = os.path.join(workdir, f'one-{name}.out')
+        engine.run_harness(cp, op, os.path.join(workdir, name), flags, shards=1)
+        outs.append([re.sub(r' \d{4,}$', '', l) if l[0] in 'NT' else l for l in engine.split_cases(op).get(c['id'], []) if l.split(' ')[0] in {'N', 'T', 'M', 'P', 'A', 'D'}])
+    k = 0
+    while k < min(len(outs[0]), len(outs[1])) and outs[0][k] == outs[1][k]:
+        k += 1
+    if outs[0] != outs[1]:
+        print(f"line {k}: uninterrupted `{outs[0][k] if k < len(outs[0]) else 'END'}` reloaded `{outs[1][k] if k < len(outs[1]) else 'END'}`")
+    print("REPRODUCED" if outs[0] != outs[1] else "NOT-REPRODUCED")
+    return 1 if outs[0] != outs[1] else 0
